@@ -503,25 +503,22 @@ func (e *Exec) sliceText(s *State, i *ssa.Slice, x Text) (Val, string) {
 		}
 		return lit(cs[lo:hi]), ""
 	}
-	// s[:1] / s[1:] of an unknown string: in bounds iff len(s) >= 1; the halves
-	// are derived atoms.
+	// slicing an unknown string: bounds become safety obligations; the result is
+	// a derived atom named after the bounds
 	if len(x.Frags) == 1 && x.Frags[0].Kind == FAtom {
-		lo, ok1 := geti(i.Low, 0)
-		hi, ok2 := geti(i.High, -1)
 		a := x.Frags[0].Atom
-		lv := mkVar("len!"+a, SInt)
-		if _, done := s.Ghost["lenfact:"+a]; !done {
-			s.Ghost["lenfact:"+a] = tTrue
-			s.assume(mkAnd(mkCmp(">=", lv, mkInt(0)), mkIff(mkEq(lv, mkInt(0)), atomEmptyVar(a))))
+		lv := e.atomLen(s, a)
+		var lo, hi *T = mkInt(0), lv
+		if i.Low != nil {
+			lo = e.val(s, i.Low).(*T)
 		}
-		if ok1 && ok2 && ((lo == 0 && hi == 1) || (lo == 1 && hi == -1)) {
-			e.emitSafety(s, "slice-bounds", e.pos(i), mkCmp(">=", lv, mkInt(1)))
-			s.assume(mkCmp(">=", lv, mkInt(1))) // execution continues only when in bounds
-			if lo == 0 {
-				return atom("head(" + a + ")"), ""
-			}
-			return atom("tail(" + a + ")"), ""
+		if i.High != nil {
+			hi = e.val(s, i.High).(*T)
 		}
+		ok := mkAnd(mkCmp("<=", mkInt(0), lo), mkCmp("<=", lo, hi), mkCmp("<=", hi, lv))
+		e.emitSafety(s, "slice-bounds", e.pos(i), ok)
+		s.assume(ok) // execution continues only when in bounds
+		return subAtom(a, lo, hi, lv), ""
 	}
 	unsupported("slice of non-concrete string %s", x)
 	return nil, ""
@@ -839,4 +836,29 @@ func (e *Exec) fnName() string {
 
 func (e *Exec) num(s *State) numCtx {
 	return numCtx{floorFn: func(a *T) *T { return freshIntDef(a, func(d *T) { s.assume(d) }) }}
+}
+
+// atomLen is the length variable of an unknown string, with its standing facts.
+func (e *Exec) atomLen(s *State, a string) *T {
+	lv := mkVar("len!"+a, SInt)
+	if _, done := s.Ghost["lenfact:"+a]; !done {
+		s.Ghost["lenfact:"+a] = tTrue
+		s.assume(mkAnd(mkCmp(">=", lv, mkInt(0)), mkIff(mkEq(lv, mkInt(0)), atomEmptyVar(a))))
+	}
+	return lv
+}
+
+// subAtom names the substring a[lo:hi] (head/tail for the two common forms).
+func subAtom(a string, lo, hi, ln *T) Text {
+	if lo.isConst() && hi.isConst() {
+		l, _ := lo.intVal()
+		h, _ := hi.intVal()
+		if l == 0 && h == 1 {
+			return atom("head(" + a + ")")
+		}
+	}
+	if l, ok := lo.intVal(); ok && l == 1 && termEq(hi, ln) {
+		return atom("tail(" + a + ")")
+	}
+	return atom("sub(" + a + "," + lo.String() + "," + hi.String() + ")")
 }
